@@ -41,5 +41,5 @@ clang++ -fsanitize=address $BUILD/h.o $BUILD/bind_cfg.o $BUILD/bind_legacy.o $BU
     $BUILD/autorecv_v1.o $BUILD/mc.o -o $BUILD/c04
 # cheap runs first: the driver gives each run an equal share of the remaining deadline
 echo "reentrancy $BUILD/c04_tsan" > $BUILD/runs.txt
-echo "roundtrip_ndebug_gcc_O2 $BUILD/c04_ndebug --only all_bytes_len1_len2,alignment_x_length,large_payloads,cut_then_frames,two_receivers,readonly_inputs,alphabet_constants" >> $BUILD/runs.txt
+echo "roundtrip_ndebug_gcc_O2 $BUILD/c04_ndebug --only all_bytes_len1_len2,alignment_x_length,large_payloads,cut_then_frames,two_receivers,readonly_inputs,alphabet_constants,long_history" >> $BUILD/runs.txt
 echo "roundtrip $BUILD/c04" >> $BUILD/runs.txt
